@@ -160,6 +160,7 @@ def showExn : Exn → String
   | .fuel => "fuel"
   | .blocked => "blocked"
   | .unregistrable => "unregistrable"
+  | .apiRaised => "raised"
 
 /-- run a machine action and report the new log entries -/
 def runM (cs : CoreSt) (m : M Unit) : CoreSt × String :=
@@ -266,6 +267,7 @@ def coreStep (cs : CoreSt) : List String → CoreSt × String
         match ← doAct cs.fuel ⟨c, none⟩ a with
         | some (.sysExit code) => stopMgr cs.fuel c code
         | some .kbdInt => stopMgr cs.fuel c none
+        | some .raised => throw .apiRaised
         | _ => pure ())
     | _, _ => (cs, "bad-op")
   | ["tick", c] =>
